@@ -57,6 +57,18 @@ Theorem C17_config_private :
 Proof. exact config_private. Qed.
 Print Assumptions C17_config_private.
 
+(* ... and every config-returning hook installed on an Authenticator
+   (ServerConfigForCommand: the handshake stores the connection's ECDH key in what
+   it returns and adopts it as its config) returns nil or the address of a copy it
+   made itself; the server's per-command hook is present and of that kind. *)
+Theorem C17_config_hooks_private :
+  forallb hook_private hook_sites = true /\
+  existsb (fun h => String.eqb (hs_fn h) "server.Server.ServeConn" &&
+                    String.eqb (hs_field h) "Authenticator.ServerConfigForCommand" &&
+                    match hs_kind h with HookCopy => true | _ => false end) hook_sites = true.
+Proof. exact config_hooks_private. Qed.
+Print Assumptions C17_config_hooks_private.
+
 (* writes to the published broker stream hold writeMu; serve is its only reader *)
 Theorem C17_broker_serialised : forallb broker_ok broker_io = true /\
   existsb (fun b => match bf_origin b with SField => String.eqb (bf_callee b) "WriteControlAd" | _ => false end) broker_io = true.
